@@ -22,6 +22,38 @@ pub struct MemoryAreas {
   rom_mapped: bool,
 }
 
+/// Verification hooks (compiled only with `--cfg gb_dynarec_verif`).
+/// A bus recorder and per-device delivered-clock counters. They allocate
+/// nothing and call nothing, because translated code calls the bus helpers
+/// directly and not always with an aligned stack.
+#[cfg(gb_dynarec_verif)]
+pub mod verif {
+  pub const LOG_CAP: usize = 1 << 16;
+  pub static mut ENABLED: bool = false;
+  pub static mut LEN: usize = 0;
+  /// kind << 24 | addr << 8 | value; kind 0 = read, 1 = write
+  pub static mut LOG: [u32; LOG_CAP] = [0; LOG_CAP];
+  /// clocks delivered to: 0 timer, 1 lcd, 2 memory bus / DMA engine
+  pub static mut CLOCKS: [u64; 3] = [0; 3];
+
+  #[inline(always)]
+  pub fn record(kind: u32, addr: u16, value: u8) {
+    unsafe {
+      if ENABLED && LEN < LOG_CAP {
+        LOG[LEN] = (kind << 24) | ((addr as u32) << 8) | (value as u32);
+        LEN += 1;
+      }
+    }
+  }
+
+  #[inline(always)]
+  pub fn clock(device: usize, cycles: usize) {
+    unsafe {
+      CLOCKS[device] += cycles as u64;
+    }
+  }
+}
+
 /// Stores the state of an active DMA procedure
 #[derive(Copy, Clone)]
 pub struct DMAState {
@@ -29,6 +61,14 @@ pub struct DMAState {
   source: usize,
   // OAM DMA is 0xa0 bytes long. This stores the offset to be copied next.
   current_offset: u8,
+}
+
+#[cfg(gb_dynarec_verif)]
+impl DMAState {
+  /// (source page address, next offset to copy)
+  pub fn verif_progress(&self) -> (usize, u8) {
+    (self.source, self.current_offset)
+  }
 }
 
 impl MemoryAreas {
@@ -113,6 +153,8 @@ impl MemoryAreas {
   }
 
   pub fn run_clock_cycles(&mut self, cycles: ClockCycles) {
+    #[cfg(gb_dynarec_verif)]
+    verif::clock(2, cycles.as_usize());
     // If a DMA is currently active, it updates with the rest of the memory bus
     // One byte is copied on each machine cycle. This will copy at most that
     // many bytes (or fewer, if the DMA completes before then).
@@ -194,6 +236,8 @@ fn create_buffer(size: usize) -> Box<[u8]> {
 
 #[inline(never)]
 pub extern "sysv64" fn memory_read_byte(areas: *const MemoryAreas, addr: u16) -> u8 {
+  #[cfg(gb_dynarec_verif)]
+  verif::record(0, addr, 0);
   let memory_areas: &MemoryAreas = unsafe { &*areas };
   if addr < 0x4000 { // ROM Bank 0
     return memory_areas.rom[addr as usize];
@@ -244,6 +288,8 @@ pub extern "sysv64" fn memory_read_byte(areas: *const MemoryAreas, addr: u16) ->
 
 #[inline(never)]
 pub extern "sysv64" fn memory_write_byte(areas: *mut MemoryAreas, addr: u16, value: u8) {
+  #[cfg(gb_dynarec_verif)]
+  verif::record(1, addr, value);
   let memory_areas: &mut MemoryAreas = unsafe { &mut *areas };
   if addr < 0x8000 { // ROM Banks
     memory_areas.cart_state.write_rom(addr, value);
